@@ -128,6 +128,24 @@ def _servers(scratch, tag=""):
 CAND = "server_unreachable_candidate"
 
 
+def _fatal_lines(scratch):
+    """Why did a server die: the Go runtime's last words in the servers' stdout logs, if any."""
+    import glob, re
+    out = []
+    for f in sorted(glob.glob(os.path.join(scratch, "srv-*", "stdout-*.log"))):
+        try:
+            with open(f, "rb") as fh:
+                fh.seek(0, 2)
+                fh.seek(max(0, fh.tell() - 400000))
+                txt = fh.read().decode("utf-8", "replace")
+        except OSError:
+            continue
+        m = re.search(r"^(fatal error: .*|panic: .*|runtime: out of memory.*|.*cannot allocate memory.*)$", txt, re.M)
+        if m:
+            out.append("%s: %s" % (os.path.basename(os.path.dirname(f)), m.group(1)[:200]))
+    return "; ".join(out) or "no fatal message in the server logs"
+
+
 def _culprits(binp, cands, scratch):
     """Replays every candidate alone (fresh databases; a fresh server pair after every death); returns the violations of kind
     server_died_during_query and the server pair that is still running (or (None, None))."""
@@ -216,12 +234,21 @@ def run(tier, replay):
             for s in (srv, seg):
                 s.stop()
             srv = seg = None
+            why = _fatal_lines(scratch)
             culprits, (srv, seg) = _culprits(binp, cands, scratch)
-            if not culprits:
-                checklib.tool_error("a ts-server died during the run but none of the %d queries in flight kills a fresh "
-                                    "server when replayed alone: %s" % (len(cands), [c.get("key") for c in cands]))
             reps[0]["violations"] = (reps[0].get("violations") or []) + culprits
             reps[0]["n_violations"] = reps[0].get("n_violations", 0) + len(culprits)
+            if not culprits:
+                # cumulative (e.g. state that leaks from query to query): no single case to blame. The wrong answers seen
+                # before the death are verdicts on their own; a death without any of them is a tool error.
+                msg = ("a ts-server died during the run (%s) but none of the %d queries in flight kills a fresh server when "
+                       "replayed alone: %s" % (why, len(cands), [c.get("key") for c in cands]))
+                reps[0]["notes"] = (reps[0].get("notes") or []) + [msg[:1500]]
+                rc = checklib.finish(CID, tier, LEVEL, RULE, reps, t0, ASSUMPTIONS)
+                if rc == 0:
+                    checklib.tool_error(msg)
+                print("NOTE: " + msg[:600], flush=True)
+                return rc
         return checklib.finish(CID, tier, LEVEL, RULE, reps, t0, ASSUMPTIONS)
     finally:
         for s in (srv, seg):
